@@ -177,11 +177,13 @@ theorem C05_resumed_session (s : Session) (block : Bytes) (now : Nat) (hok : (s.
 
 /-- **`connect` arms the replay.** From any state, after the resets at the top of `connect` every
 entry of the three queues waits for its first byte (`.write 0`), with identifiers, reason codes,
-positions and order unchanged; encoding CONNECT, clearing the deadlines and reading the CONNACK keep
+positions and order unchanged — except that a queued PINGREQ is dropped (it belonged to the old
+connection); encoding CONNECT, clearing the deadlines and reading the CONNACK keep
 it that way. (The bytes of the retained packets change only in the DUP bit: C17.) -/
 theorem C05_connect_arms_replay (s : Session) :
     s.beginConnect.data.outbound.AllFresh ∧
-    s.beginConnect.data.outbound.control.map (·.action) = s.data.outbound.control.map (·.action) ∧
+    s.beginConnect.data.outbound.control.map (·.action) =
+      (s.data.outbound.control.map (·.action)).filter (fun a => a.typ ≠ MT_PingReq) ∧
     s.beginConnect.data.outbound.release.map (fun e => (e.id, e.rc)) = s.data.outbound.release.map (fun e => (e.id, e.rc)) ∧
     s.beginConnect.data.outbound.retained.map (fun e => (e.id, e.offset, e.len, e.ser)) =
       s.data.outbound.retained.map (fun e => (e.id, e.offset, e.len, e.ser)) ∧
@@ -190,8 +192,11 @@ theorem C05_connect_arms_replay (s : Session) :
       s1.clearPing.data.outbound.AllFresh ∧ (∀ bytes, (s1.commit bytes).data.outbound.AllFresh) ∧
       (∀ s' n, s1.window = some (s', n) → s'.data.outbound.AllFresh) ∧ s1.takePkt.1.data.outbound.AllFresh ∧
       (∀ block now, (s1.activate true block now).2 = .ok () → (s1.activate true block now).1.data.outbound.AllFresh)) := by
-  obtain ⟨i1, i2, i3⟩ := armReplay_ids s.data.outbound
-  refine ⟨beginConnect_allFresh s, i1, i2, i3, ?_⟩
+  obtain ⟨i1, i2, i3⟩ := armReplay_ids s.data.outbound.dropPingreq
+  refine ⟨beginConnect_allFresh s, ?_, i2, i3, ?_⟩
+  · show s.data.outbound.dropPingreq.armReplay.control.map (·.action) = _
+    rw [i1]
+    simp only [Outbound.dropPingreq, List.filter_map, Function.comp_def]
   intro s1 h1
   obtain ⟨a, b', c, d, e⟩ := handshake_keeps_allFresh s1 h1
   refine ⟨a, b', c, d, e, ?_⟩
